@@ -429,7 +429,20 @@ def explore(ctx: Ctx, specs: list[dict], judge: str, bound: int,
             ctx.cap(f'{part or judge}: time cap at level {level} '
                     f'({n_done}/{len(frontier)} of that level executed)')
             break
-        frontier = nxt
+        # Deal the next level out scenario by scenario (round robin, each
+        # scenario's schedules in canonical order): if a time cap interrupts
+        # the level, every scenario has had its share instead of the first
+        # scenarios of the table having had everything.
+        groups: dict = collections.OrderedDict(
+            (s['name'], collections.deque()) for s in specs)
+        for it_ in sorted(nxt, key=lambda x: repr(x[1])):
+            groups[it_[0]['name']].append(it_)
+        frontier = []
+        queues = [q_ for q_ in groups.values() if q_]
+        while queues:
+            for q_ in queues:
+                frontier.append(q_.popleft())
+            queues = [q_ for q_ in queues if q_]
         level += 1
     stats['levels_completed'] = level
     stats['complete'] = completed_all
